@@ -542,10 +542,18 @@ func linearizabilityHistory(run *evid.Run, idx int, overlaps map[string]int) {
 			case k < 22:
 				s := rng.IntN(nSess)
 				off := int64(-1)
-				if rng.IntN(2) == 0 {
+				switch rng.IntN(5) {
+				case 0, 1:
 					off = int64(len(sessData[s]))
+				case 2:
+					// an offset the session is not at (nobody removes bytes): the next write to the session is refused
+					off = int64(len(sessData[s])) - 1 - int64(rng.IntN(2))
 				}
 				op = &model.Op{Kind: "PushBlobChunkedResume", Repo: "r", H: s, Offset: off}
+				if rng.IntN(4) == 0 {
+					// closing a writer of the session changes nothing about the session
+					op = &model.Op{Kind: "W.Close", H: s}
+				}
 			default:
 				if committedSess || g >= nSess {
 					op = &model.Op{Kind: "GetBlob", Repo: "r", Digest: model.Digest(sessData[g%nSess])}
